@@ -4,7 +4,7 @@
    empty, full, overlapping and repeated node sets), every mesh and every number of fields. *)
 From Coq Require Import String ZArith List Bool Arith Permutation Sorted.
 From OV.model Require Import M_C14_Dof M_C14_Asm M_C14_IR.
-From OV.proofs Require Import L_C14 L_C14_Asm L_C14_IR.
+From OV.proofs Require Import L_C14 L_C14_Asm L_C14_IR L_C14_Ctor.
 From OV.gen Require Import CFG_Dof.
 Import ListNotations.
 Open Scope list_scope.
@@ -173,12 +173,96 @@ Proof. exact ir_assemble_by_hand. Qed.
 Theorem C14_source_assembler_stateless : cfg_asm_module_state = [] /\ cfg_asm_other_functions = [].
 Proof. exact asm_module_stateless. Qed.
 
-(* the extracted constructor (with both Hessian helper methods, run from their own extracted syntax trees) builds the model's
-   object on the worked example; for ALL inputs this is
-   NOT PROVED: construct 0 cfg_dof_methods F [functionSpace; dim; EssentialBCs] = dof_object nNodes dim (mk_isBc ...) conns
-   needs loop invariants for the three `for` loops of __init__ / _make_hessian_coordinates / _make_hessian_bc_mask through the
-   interpreter; it is instead CHECKED BY COMPUTATION in Coq on every case of the correspondence stream (run_ir_case: the
-   interpreted extracted constructor against the running DofManager, exact), see tools/props/c14.py. *)
+(* ---- the extracted CONSTRUCTOR builds the model's object, for ALL inputs (proofs/L_C14_Ctor.v: loop invariants for the BC loop of
+   __init__, the two loops of _make_hessian_coordinates and the loop of _make_hessian_bc_mask, through the interpreter; the helper
+   methods are run from their own extracted syntax trees).  Inputs: a function space whose mesh has nNodes nodes, the node sets
+   `sets` (ANY function from names to node lists: repeats, overlaps, empty sets, out-of-range nodes are ignored as in the model)
+   and the connectivity table `conns`; the number of fields `dim`; ANY list of essential BCs (node-set name, component).
+   Guards: node ids of the connectivity in range (NumPy raises IndexError otherwise), a rectangular table (it is a 2-D array),
+   at least one element.  Objects are compared field by field in declared order (canon_object), so the order of the assignments
+   in __init__ is immaterial to the STATEMENT. *)
+Theorem C14_source_constructor : forall (A : Type) (zero : A) nNodes dim sets conns ebl F,
+  valid_conns nNodes conns -> rect_conns conns -> conns <> [] ->
+  option_map (canon_object cfg_dof_fields) (construct zero cfg_dof_methods (S F) [mk_fsp nNodes sets conns; VInt dim; mk_ebcs ebl])
+  = Some (canon_object cfg_dof_fields (dof_object nNodes dim (mk_isBc nNodes dim (ebcs_of sets ebl)) conns)).
+Proof. exact @construct_full. Qed.
+
+(* ... also for a mesh WITHOUT elements (zero trips through the helper loops), where rowCoords / colCoords stay the arrays
+   zeros(0, dtype=int) they were allocated as: same object up to the tag of integer arrays (canon_data compares their data) *)
+Theorem C14_source_constructor_all : forall (A : Type) (zero : A) nNodes dim sets conns ebl F,
+  valid_conns nNodes conns -> rect_conns conns ->
+  option_map (canon_data cfg_dof_fields) (construct zero cfg_dof_methods (S F) [mk_fsp nNodes sets conns; VInt dim; mk_ebcs ebl])
+  = Some (canon_data cfg_dof_fields (dof_object nNodes dim (mk_isBc nNodes dim (ebcs_of sets ebl)) conns)).
+Proof. exact construct_full_data. Qed.
+
+(* end to end over extracted code only: construct, then call every public method ON THE CONSTRUCTED OBJECT (not on dof_object):
+   each returns the hand-model function of the mask declared by the BC list *)
+Theorem C14_source_end_to_end : forall (A : Type) (zero : A) nNodes dim sets conns ebl F,
+  valid_conns nNodes conns -> rect_conns conns -> conns <> [] ->
+  let isBc := mk_isBc nNodes dim (ebcs_of sets ebl) in
+  exists obj : @val A,
+    construct zero cfg_dof_methods (S F) [mk_fsp nNodes sets conns; VInt dim; mk_ebcs ebl] = Some obj
+    /\ canon_object cfg_dof_fields obj = canon_object cfg_dof_fields (dof_object nNodes dim isBc conns)
+    /\ (let callm := call zero cfg_dof_methods (S F) in
+        callm "get_bc_size"%string obj [] = Some (VInt (get_bc_size isBc))
+        /\ callm "get_unknown_size"%string obj [] = Some (VInt (get_unknown_size isBc))
+        /\ (forall sh U, callm "get_bc_values"%string obj [VA sh U] = Some (VA [count_true isBc] (get_bc_values isBc U)))
+        /\ (forall sh U, callm "get_unknown_values"%string obj [VA sh U] = Some (VA [count_true (isUnknown isBc)] (get_unknown_values isBc U)))
+        /\ (forall s1 s2 Uu Ubc, callm "create_field"%string obj [VA s1 Uu; VA s2 Ubc] = Some (VA [nNodes; dim] (create_field isBc zero Uu Ubc)))
+        /\ (forall s1 Uu c, callm "create_field"%string obj [VA s1 Uu; VSc c] = Some (VA [nNodes; dim] (create_field_scalar isBc zero Uu c)))
+        /\ (forall s1 Uu, callm "create_field"%string obj [VA s1 Uu] = Some (VA [nNodes; dim] (create_field_scalar isBc zero Uu zero)))
+        /\ (forall s1 Uu pos, callm "slice_unknowns_with_dof_indices"%string obj [VA s1 Uu; VPos pos]
+                              = Some (VA [count_true (map (is_unknown isBc) pos)] (slice_unknowns isBc zero Uu pos)))).
+Proof. exact construct_end_to_end. Qed.
+
+(* ... and the SparseMatrixAssembler index path end to end over extracted code: the extracted assembler run on the object the
+   extracted constructor built returns -- as a dense matrix, duplicates summed -- the matrix assembled BY HAND from the element
+   matrices, the connectivity and the DECLARED BCs (C14_assembly_by_hand; nothing of the index maps appears in the right-hand side) *)
+Theorem C14_source_construct_then_assemble : forall nNodes dim sets conns ebl F (kvals : list (list Z)) n0 n1 n3 n4,
+  valid_conns nNodes conns -> rect_conns conns -> conns <> [] -> asm_blocks_ok dim conns kvals ->
+  match construct 0%Z cfg_dof_methods (S F) [mk_fsp nNodes sets conns; VInt dim; mk_ebcs ebl] with
+  | Some obj =>
+      match run_function 0%Z cfg_asm_assemble_sparse_stiffness_matrix [VA [n0; n1; dim; n3; n4] (concat kvals); VConns conns; obj] with
+      | Some K => csc_dense K
+      | None => None
+      end
+  | None => None
+  end = Some (assemble (mk_isBc nNodes dim (ebcs_of sets ebl)) dim conns kvals).
+Proof. exact construct_then_assemble. Qed.
+
+(* non-vacuity of the guards: the worked example below is an instance (repeated node, overlapping sets, an undeclared = empty set) *)
+Example C14_source_constructor_nonvacuous :
+  valid_conns 4 ex_conns /\ rect_conns ex_conns /\ ex_conns <> []
+  /\ mk_fsp 4 ex_sets ex_conns = ex_fsp /\ mk_ebcs [("a"%string, 0); ("b"%string, 0); ("c"%string, 1)] = ex_ebcs
+  /\ mk_isBc 4 2 (ebcs_of ex_sets [("a"%string, 0); ("b"%string, 0); ("c"%string, 1)]) = ex_isBc.
+Proof. exact ex_ctor_nonvacuous. Qed.
+
+(* the interpreter copies array values where NumPy shares references; the two readings agree when no array that is updated in
+   place can be observed through another name.  alias_safe (model/M_C14_IR.v) is a conservative syntactic sufficient condition for
+   that; it holds of every extracted function of this run, and it is a real test: dropping `.copy()` in _make_hessian_coordinates
+   (one array under two names in NumPy -- the row coordinates would be overwritten) is rejected although the interpreter, by
+   construction, cannot see the difference. *)
+Theorem C14_source_no_observable_aliasing :
+  forallb (fun d => alias_safe (snd d)) cfg_dof_methods = true /\ alias_safe cfg_asm_assemble_sparse_stiffness_matrix = true.
+Proof. exact alias_guard_holds. Qed.
+
+Example C14_source_aliasing_guard_nonvacuous :
+  nth 4 (f_body cfg_dof_make_hessian_coordinates) (SReturn ENone)
+    = SAssign [EName "colCoords"%string] (ECall (EAttr (EName "rowCoords"%string) "copy"%string) [] [])
+  /\ alias_safe hc_without_copy = false
+  /\ option_map (canon_object cfg_dof_fields)
+       (construct 0%Z (replace_method "_make_hessian_coordinates"%string hc_without_copy cfg_dof_methods) 2 [ex_fsp; VInt 2; ex_ebcs])
+     = Some (canon_object cfg_dof_fields (dof_object 4 2 ex_isBc ex_conns))
+  /\ alias_safe init_alias_early = false.
+Proof. exact alias_guard_discriminates. Qed.
+
+(* NOT PROVED (trusted, tied by the exact correspondence stream run_ir_case of tools/props/c14.py on every run): that the
+   interpreter of model/M_C14_IR.v gives the NumPy subset the meaning NumPy gives it (boolean-mask selection, integer-array and
+   slice assignment, tile / ravel / .T, enumerate; value semantics for the in-place updates is guarded syntactically by
+   C14_source_no_observable_aliasing, whose sufficiency for NumPy's reference semantics is itself an argument, not a theorem); negative (wrap-around) and out-of-range node ids, where NumPy raises or
+   wraps and the model ignores the entry, are excluded by the guards.  The constructor theorems follow the SYNTAX of __init__ and
+   of the two helpers: a meaning-preserving reordering of the source can break the proof (reported as a broken tie).
+   The closed instance below (kept from the previous round) is the same statement checked by computation on the worked example. *)
 Example C14_source_constructor_example :
   option_map (canon_object cfg_dof_fields) (construct 0%Z cfg_dof_methods 2 [ex_fsp; VInt 2; ex_ebcs])
   = Some (canon_object cfg_dof_fields (dof_object 4 2 ex_isBc ex_conns)).
@@ -203,3 +287,5 @@ Print Assumptions C14_slice_component.
 Print Assumptions C14_hessian_maps.
 Print Assumptions C14_assembly_by_hand.
 Print Assumptions C14_source_assembler.
+Print Assumptions C14_source_constructor.
+Print Assumptions C14_source_construct_then_assemble.
